@@ -10,6 +10,7 @@ for n in names:
     if r.get('traceback'): print(r['traceback'])
     for it in r['items']:
         print('   ', it['verdict'], it['backend'] if 'backend' in it else '', it.get('time_s'), it['name'], '|', it.get('note') or '', it.get('model_confirmed', ''))
-        if it['verdict'] not in ('proved',) and it.get('expect') == 'proved':
+        if (it.get("time_s") or 0) > 1: print("       SLOW", it.get("time_s"), it["name"], it.get("backend"))
+        if it["verdict"] not in ("proved",) and it.get("expect") == "proved":
             print('       goal:', it.get('goal')); print('       model:', it.get('model'))
         if it.get('traceback'): print(it['traceback'])
